@@ -129,7 +129,8 @@ def aged_signal(rng, cls, values, dt, **kw):
     if is_acc and n >= 4:
         kinds += ['combined-child', 'windowed-correction-then-reset', 'resampled-child']
     kinds += ['nondefault-generators-then-reset']          # round 7 (hx_r7d): see _aged_nondefault at the end of this file
-    kind = rng.choice(kinds)
+    pick = kw.pop('_pick', None)
+    kind = pick(kinds) if pick is not None else rng.choice(kinds)
     if kind == 'fresh':
         return kind, cls(values, dt, **kw)
     if kind == 'nondefault-generators-then-reset':
